@@ -431,7 +431,7 @@ Definition pop_ok (ps : list port) (U : list str) (o : pop) : Prop :=
   | PSeek _ => True
   | PSet path args =>
     mem path U = true /\ 47 :: path <> undo_path /\
-    forall c, In c ps -> port_match c path args = true ->
+    forall c, In c ps -> port_match c path args = true -> undoable (pk c) = true ->
               conf (pe c) (pk c) args /\ args_canon (pk c) args
   end.
 
@@ -550,10 +550,10 @@ Proof.
     assert (Hpc : port_ok c) by (rewrite Forall_forall in Hpo; exact (Hpo c Hin)).
     assert (Hcc : contents_ok (c, st)).
     { unfold cells_ok in Hcells. apply Forall_app in Hcells. destruct Hcells as [_ Hc2]. inversion Hc2; assumption. }
-    destruct (Hconf c Hin PM) as [Hcf Hca].
     unfold owns in Ho. destruct (addr_match c path) as [idx|] eqn:Ha; [|discriminate].
     destruct (undoable (pk c)) eqn:Hund.
     + (* a numeric / option port *)
+      destruct (Hconf c Hin PM Hund) as [Hcf Hca].
       destruct (cell_set c st path idx args st' o s Hpc Hcc Hund Ha Hcf Hca Hloc ST)
         as (old & new & V1 & V2 & Hc' & Go & Gn & Fr & Rec & _).
       rewrite R in Rec. inversion Rec as [Es']. clear Rec.
@@ -805,3 +805,110 @@ Proof.
     exists t', s', ms. split; [exact E|]. split; [exact Hp0|]. split; [exact C'|].
     intro a. rewrite Ab. apply Hv.
 Qed.
+
+(* ---- tables whose names begin with different characters share no address ---- *)
+Definition head_of (c : port) : Z := match p_name (pe c) with h :: _ => h | [] => 0 end.
+
+Lemma owns_head : forall c path, p_name (pe c) <> [] -> owns c path = true ->
+  exists r, path = head_of c :: r.
+Proof.
+  intros c path Hne Ho. unfold owns in Ho. destruct (addr_match c path) as [i|] eqn:E; [|discriminate].
+  destruct (addr_match_facts c path i E) as [Ep _]. unfold head_of.
+  destruct (p_name (pe c)) as [|h t]; [contradiction|]. exists (t ++ i). rewrite Ep. reflexivity.
+Qed.
+
+Lemma uniq_by_head : forall ps, (forall c, In c ps -> p_name (pe c) <> []) ->
+  NoDup (map head_of ps) -> uniq ps.
+Proof.
+  induction ps as [|c r IH]; intros Hne Hnd; [exact I|].
+  cbn [map] in Hnd. inversion Hnd as [|? ? Hni Hnd']; subst. split.
+  - intros path Ho. destruct (owns_head c path (Hne c (or_introl eq_refl)) Ho) as [rest Ep].
+    apply forallb_forall. intros c' Hc'. apply negb_true_iff.
+    destruct (owns c' path) eqn:O; [|reflexivity]. exfalso.
+    destruct (owns_head c' path (Hne c' (or_intror Hc')) O) as [rest' Ep'].
+    rewrite Ep in Ep'. inversion Ep' as [Eh]. apply Hni. rewrite Eh. apply in_map. exact Hc'.
+  - apply IH; [intros c' Hc'; apply Hne; right; exact Hc'|exact Hnd'].
+Qed.
+
+(* ---- non-vacuity: a clamped integer, an integer array and a toggle ---- *)
+Definition ex_pi : port :=      (* rParamI(i, rLinear(-100, 100)) *)
+  mkPort KI {| p_name := [105]; p_hash := false; p_min := Some (-100); p_max := Some 100; p_map := [] |} 0.
+Definition ex_pn : port :=      (* rArrayI(n, 4) *)
+  mkPort KAI {| p_name := [110]; p_hash := true; p_min := None; p_max := None; p_map := [] |} 4.
+Definition ex_pt : port :=      (* rToggle(t) *)
+  mkPort KT {| p_name := [116]; p_hash := false; p_min := None; p_max := None; p_map := [] |} 0.
+Definition ex_ports : list port := [ex_pi; ex_pn; ex_pt].
+Definition ex_table : list (port * list Z) := [(ex_pi, [0]); (ex_pn, [0; 0; 0; 0]); (ex_pt, [0])].
+Definition ex_U : list str := [[105]; [110; 49]; [110; 50]; [116]].
+(* /i := 500 (stored 100), /n1 := 5, 3 s, /t := T, /n1 := 7, undo one step, /n2 := -3 *)
+Definition ex_pops : list pop :=
+  [PSet [105] [Ai 500]; PSet [110; 49] [Ai 5]; PTick 3; PSet [116] [ATrue];
+   PSet [110; 49] [Ai 7]; PSeek (-1); PSet [110; 50] [Ai (-3)]].
+
+Lemma ex_table_ok : table_ok ex_ports.
+Proof.
+  split.
+  - assert (B : forall (k : kind) (mn mx : option Z), mn = None \/ mx = None \/ (mn = Some (-100) /\ mx = Some 100) ->
+                bounds_ordered zkey mn mx).
+    { intros k mn mx [E|[E|[E1 E2]]] lo hi H1 H2; subst; try discriminate.
+      inversion H1; inversion H2; subst; unfold zkey; lia. }
+    constructor; [|constructor; [|constructor; [|constructor]]]; unfold port_ok; cbn [pk pe ex_pi ex_pn ex_pt].
+    + split; [left; reflexivity|]. split; [exact I|]. split; [apply (B KI); tauto|].
+      split; [constructor|]. split; [reflexivity|]. split; intros; exact I.
+    + split; [left; reflexivity|]. split; [split; intros b Hb; discriminate Hb|]. split; [apply (B KAI); tauto|].
+      split; [constructor|]. split; [reflexivity|]. split; intros; exact I.
+    + split; [right; left; reflexivity|]. split; [exact I|]. split; [apply (B KT); tauto|].
+      split; [constructor|]. split; [reflexivity|]. split; intros; exact I.
+  - apply uniq_by_head.
+    + intros c [H|[H|[H|[]]]]; subst c; discriminate.
+    + cbn. repeat constructor; cbn; intuition discriminate.
+Qed.
+
+Lemma ex_one_spelling : one_spelling ex_ports ex_U.
+Proof.
+  intros c p p' i i' Hc Hp Hp' A A' E.
+  destruct Hc as [Hc|[Hc|[Hc|[]]]]; subst c;
+    destruct Hp as [Hp|[Hp|[Hp|[Hp|[]]]]]; subst p; vm_compute in A; try discriminate;
+    destruct Hp' as [Hp'|[Hp'|[Hp'|[Hp'|[]]]]]; subst p'; vm_compute in A'; try discriminate;
+    try reflexivity; inversion A; inversion A'; subst; vm_compute in E; discriminate.
+Qed.
+
+Lemma ex_cells_ok : cells_ok ex_table.
+Proof.
+  repeat constructor; cbn; try discriminate; try (intros lo Hl; inversion Hl; subst; unfold zkey; lia);
+    try (unfold char_range; lia).
+Qed.
+
+Ltac ex_pset :=
+  split; [reflexivity|]; split; [discriminate|];
+  let c := fresh "c" in let H := fresh "H" in let PM := fresh "PM" in let Hu := fresh "Hu" in
+  intros c [H|[H|[H|[]]]] PM Hu; subst c; vm_compute in PM; try discriminate; try discriminate Hu;
+  (split; [cbn; constructor; unfold char_range; lia | intros a v Ha Hv; exact I]).
+
+Lemma ex_pops_ok : Forall (pop_ok ex_ports ex_U) ex_pops.
+Proof.
+  unfold ex_pops.
+  constructor; [ex_pset|]. constructor; [ex_pset|]. constructor; [cbn; lia|].
+  constructor; [ex_pset|]. constructor; [ex_pset|]. constructor; [exact I|].
+  constructor; [ex_pset|]. constructor.
+Qed.
+
+Lemma ports_nonvacuous :
+  table_ok ex_ports /\ one_spelling ex_ports ex_U /\ cells_ok ex_table /\
+  Forall (pop_ok ex_ports ex_U) ex_pops /\
+  exists t s, prun ex_pops (ex_table, init) = Some (t, s) /\
+    t = [(ex_pi, [100]); (ex_pn, [0; 5; -3; 0]); (ex_pt, [1])] /\
+    hist s = [mkEv 1000 [47; 105] 105 0 100; mkEv 1000 [47; 110; 49] 105 0 5;
+              mkEv 1003 [47; 110; 50] 105 0 (-3)] /\ pos s = 3%nat.
+Proof.
+  split; [exact ex_table_ok|]. split; [exact ex_one_spelling|]. split; [exact ex_cells_ok|].
+  split; [exact ex_pops_ok|]. eexists _, _. split; [vm_compute; reflexivity|].
+  split; [reflexivity|]. split; reflexivity.
+Qed.
+
+(* the event's type tag matters: the set-message built from an event that carries
+   'c' payloads for an element of "n#4::i" reaches no port and restores nothing *)
+Lemma wrong_tag_not_replayed :
+  replay_msgs [(ex_pn, [0; 5; 0; 0])] [SetMsg [47; 110; 49] 99 0] = Some ([(ex_pn, [0; 5; 0; 0])], 0) /\
+  replay_msgs [(ex_pn, [0; 5; 0; 0])] [SetMsg [47; 110; 49] 105 0] = Some ([(ex_pn, [0; 0; 0; 0])], 1).
+Proof. split; vm_compute; reflexivity. Qed.
